@@ -194,6 +194,15 @@ func manufacturedEOF(c *core.Ctx, rule string, pkgs []string, floor int) {
 				}
 			case *ssa.Call:
 				// more-input predicate: false edge
+				// (*json.Decoder).More is no evidence: it answers false for "nothing left" AND for a failing read (it drops the
+				// reader's error) — seed C16-16 turned a reader failure behind the last value into a clean io.EOF with it
+				if o := core.CalleeObj(x); o != nil && o.Pkg() != nil && o.Pkg().Path() == "encoding/json" && o.Name() == "More" {
+					break
+				}
+				// a plain library function (errors.As, strings.HasPrefix …) says nothing about the source
+				if o := core.CalleeObj(x); o != nil && o.Pkg() != nil && !core.InRepo(o.Pkg()) && o.Type().(*types.Signature).Recv() == nil {
+					break
+				}
 				if bt, ok := x.Type().Underlying().(*types.Basic); ok && bt.Kind() == types.Bool {
 					mark(fEdge, "more-input predicate "+x.Call.String()+" is false")
 				}
